@@ -588,6 +588,7 @@ func init() {
 			},
 			RunDeadline: 120 * time.Second,
 			Procs:       true,
+			Post:        faultFidelityPass,
 			Exhaustive:  []string{"every mutating file-system operation of each scenario's run as kill point (before/after/mid-write) and as fault point (ENOSPC, EIO)"},
 			Assumptions: []string{
 				"process-kill semantics: every completed file-system operation is durable (page cache survives the process); power-loss reordering is outside the property",
